@@ -138,6 +138,10 @@ def run(tier):
     rep.bounds["recipes"] = len(items)
     for sh in common.pmap_shards(_worker, items, shard_size=4, order_seed=rep.seed):
         rep.merge(sh)
+    # by-reference / shared-slot call programs compiled with an OptimizeOptions object that an earlier compilation
+    # has used: calls must still behave as function calls
+    from . import c03
+    c03.shared_options_driver(rep, mode="behaviour")
     rep.counters["distinct_nontrivial"] = rep.counters.get("states", 0)
     rep.assumptions = ["reference AVM interpreter", "recursion depth explored: arguments 0..4"]
     for need in ("APPROVE",):
@@ -147,6 +151,9 @@ def run(tier):
 
 
 def replay(case):
+    if case.get("driver") == "shared-options":
+        from . import c03
+        return c03.replay_shared(case, "behaviour", PID)
     cfg = rb.Cfg.from_json(case["cfg"])
     out = {"counters": {}, "outcomes": {}, "violations": [], "samples": []}
     check_program(case.get("recipe"), [cfg], [case["input"]] if "input" in case else [], out, 0, "replay", case.get("native"))
